@@ -69,7 +69,7 @@ CHECKS = {
     'C02': "Proved (all trees with valid names, all token trees with separator-free literals - proved of every tree the parser produces - any engine that decides the "
            "regular languages): C02_walk_of_a_glob_yields_exactly_its_matches - the machine with the glob layer built from the encoder's complete program and component "
            "programs yields exactly the entries the complete program matches, in pre-order, each once. Pruning soundness of the component programs is a theorem "
-           "(C02_component_programs_prune_soundly), no longer a hypothesis; table hypothesis (case folding never relates `/`) checked over all code points on every run. "
+           "(C02_component_programs_prune_soundly), no longer a hypothesis; for globs with an invariant prefix the walk of the sub-directory yields exactly the matching entries of the whole tree below the prefix (C02_prefixed_glob_walk_yields_exactly_its_matches: lookup, prefix splitting and the starting directory are in the model); table hypothesis (case folding never relates `/`) checked over all code points on every run. "
            "Tie: token tree, complete program and component programs of every walked glob, and the item sequences of real "
            "walks over generated on-disk trees vs the model's run on the independently read tree. Oracle: independent read-back filtered by is_match.",
     'C03': "Proved (all trees with valid names, underlying stacks, depth windows): C03_not_is_a_filter_for_tree_terminated_negations - when the exhaustive part of the "
@@ -81,7 +81,7 @@ CHECKS = {
     'C13': "Proved: the combinator stack machine (walkdir stack + layers with residue transitions) refines the pruned pre-order specification for all trees and stacks. "
            "Tie: full feed sequences observed by a pass-through filter_entry. Oracle: nothing beneath a discarded directory is fed downstream; no sibling is lost.",
     'C14': "Proved: path arithmetic of entries on normalised component lists. Tie: the five accessors of every yielded entry. Oracle: join(root, relative) = path, depth = components.",
-    'C15': "Proved: depth window over the model traversal. Tie/Oracle: all (min,max) pairs x both link behaviours on trees with links vs independent traversal.",
+    'C15': "Proved: every produced entry lies in the depth window; for glob walks with a prefix the starting directory, the prefix components and the window at the pivot are part of the model and every entry's depth from the directory given lies in the configured window (C15_glob_walk_in_window; upper bound when the window reaches the pivot - known class max_below_prefix). Tie/Oracle: windows also handed over as (max, min); all (min,max) pairs x both link behaviours on trees with links vs independent traversal.",
     'C16': "Proved: corollaries of the refinement: permutation invariance of yields, monotone tags, observe-once. Tie/Oracle: all permutations of generated stacks.",
     'C20': "Proved: error items pass every layer unchanged and in place (model). Tie/Oracle: trees with unreadable directories / dangling / re-entrant links vs the model "
            "and vs a fault-free walk of the readable part. Partial: the OS/walkdir fault behaviour is trusted.",
